@@ -263,6 +263,8 @@ class Engine:
             return v.t
         if hasattr(v, 'labels') and hasattr(v, 'data'):
             return v.data
+        if hasattr(v, 'terms') and self.hooks is not None and hasattr(self.hooks, 'canon'):
+            return self.hooks.canon(self, v)          # a linear combination of opaque tables (pv/vc/linvec.py)
         raise Unsupported('to_V(%r)' % (v,))
 
     def fresh_like(self, v, base, taint=None):
